@@ -73,3 +73,18 @@ def product_sites(run, f, order=None, floor=None, rule='R7'):
         raise AnalysisError('%s::%s: %d Pauli product site(s) recognised, %d confirmed by hand' % (
             f.rel, f.qual, len(sites), floor))
     return sites
+
+
+def effects_of(repo):
+    """Solved effect summaries, computed once per analysed tree."""
+    from .. import effects
+    from ..types import Types
+    if not hasattr(repo, '_effects'):
+        repo._types = Types(repo)
+        repo._effects = effects.Effects(repo, repo._types)
+    return repo._effects
+
+
+def types_of(repo):
+    effects_of(repo)
+    return repo._types
